@@ -88,6 +88,10 @@ func startServer(kind string, port int, withCert bool, tgt *vlib.Target) (*serve
 	switch kind {
 	case "tcp":
 		srv = &server.SocketServer{ServerConfig: sc, Address: addr.MustParseAddress(fmt.Sprintf("tcp://127.0.0.1:%d", port))}
+	case "tcp+tls":
+		kp := vlib.GetPKI().ServerGood
+		sc.Config = cert.Config{Certificate: kp.CertPEM, PrivateKey: kp.KeyPEM}
+		srv = &server.SocketServer{ServerConfig: sc, Address: addr.MustParseAddress(fmt.Sprintf("tcp+tls://127.0.0.1:%d", port))}
 	case "http":
 		srv = &server.HttpServer{ServerConfig: sc, Address: addr.MustParseAddress(fmt.Sprintf("http://127.0.0.1:%d", port)),
 			Endpoints: server.WebsocketEndpointList{server.HttpEndpoint{Endpoint: "/ws/all"}}}
@@ -105,6 +109,8 @@ func mkUpstream(kind string, port int) upstream.Upstream {
 	switch kind {
 	case "tcp":
 		return &upstream.Socket{Address: addr.MustParseAddress(fmt.Sprintf("tcp://127.0.0.1:%d", port))}
+	case "tcp+tls":
+		return &upstream.Socket{Address: addr.MustParseAddress(fmt.Sprintf("tcp+tls://127.0.0.1:%d", port))}
 	case "http":
 		return &upstream.Http{Address: addr.MustParseAddress(fmt.Sprintf("http://127.0.0.1:%d/ws/all", port))}
 	default:
@@ -421,7 +427,11 @@ func TestPolicy(t *testing.T) {
 			fates = append(fates, fInsecure, fInsecure)
 		}
 		for i := 0; i < n; i++ {
-			u := upSpec{Kind: []string{"tcp", "http", "udp"}[rapid.IntRange(0, 2).Draw(rt, "kind")]}
+			u := upSpec{Kind: []string{"tcp", "http", "udp", "tcp+tls"}[rapid.IntRange(0, 3).Draw(rt, "kind")]}
+			if u.Kind == "tcp+tls" && d.MustSecure {
+				// a TLS carrier satisfies the requirement by itself: "works but insecure" does not exist for it
+				fates = []string{fWorks, fWorks, fRefused, fError}
+			}
 			u.Fate = fates[rapid.IntRange(0, len(fates)-1).Draw(rt, "fate")]
 			if u.Kind == "udp" && (u.Fate == fRefused || u.Fate == fError) {
 				// a datagram endpoint cannot refuse or answer a status: that is the silent case (TestSilentUpstreams)
@@ -465,7 +475,7 @@ func TestPolicy(t *testing.T) {
 func TestSilentUpstreams(t *testing.T) {
 	bound := 75 * time.Second
 	var cases []caseDesc
-	for _, kind := range []string{"tcp", "http", "udp"} {
+	for _, kind := range []string{"tcp", "http", "udp", "tcp+tls"} {
 		cases = append(cases, caseDesc{Ups: []upSpec{{kind, fSilent}, {"tcp", fWorks}}, Forward: "none", K: 1, Loss: "none"})
 		cases = append(cases, caseDesc{Ups: []upSpec{{"tcp", fRefused}, {kind, fSilent}, {"http", fWorks}}, Forward: "unreachable", K: 2, Loss: "none"})
 	}
